@@ -149,8 +149,15 @@ TWIN_RECIPES_DOC = ("# Pies\n\n```recipe\npastry = mix(200 g flour, 100 g butter
                     "```new-recipe\nbase = crush(biscuits)\n```\n\n```recipe\npastry = mix(200 g flour, 100 g butter)\n```\n\n```recipe\ncheesecake = chill(base, pastry)\n```\n")
 
 
+# a name first inferred from an ingredient and then given explicitly: refused today (redefinition); should it ever be accepted, the links must still
+# have one target each
+REUSED_NAME_DOC = ("# Onion burgers for 2\n\n    3 onions\n    salad = toss(1/4 of the onions, 1 lettuce, 2 tomatoes)\n\nSlowly fry what is left.\n\n"
+                   "    onions = caramelise(remaining onions, 1 tbsp sugar, oil)\n\nThen assemble:\n\n"
+                   "    burgers = stack(2 buns, 2 patties, 2/3 of the onions)\n    serve(burgers, salad, remaining onions)\n")
+
+
 def oracle(run):
-    docs = [(COLLISION_DOC, None), (ACCENT_DOC, None), (NUMBERED_NAME_DOC, None), (TWIN_RECIPES_DOC, None)] + [(d.text(), d.descs) for d in c13.gen_cases(run, run.budget(150, 4000))]
+    docs = [(COLLISION_DOC, None), (ACCENT_DOC, None), (NUMBERED_NAME_DOC, None), (TWIN_RECIPES_DOC, None), (REUSED_NAME_DOC, None)] + [(d.text(), d.descs) for d in c13.gen_cases(run, run.budget(150, 4000))]
     for text, descs in docs:
         run.case(("oracle", text), "rg-reference" in text or True, kind="document")
         seen = set()
